@@ -510,3 +510,7 @@ def run(ctx):
     _run_main2(ctx)
     extras2(ctx)
     ctx.flush()
+
+
+# evidence: how the model is tied to the source on every run (as built, supersedes the value above)
+TIE = 'translator (eqsig/stockwell.py -> Gen/StockwellFns; Props/C15Gen) + correspondence (Float twin of the whole transform, both implementations)'
